@@ -178,9 +178,13 @@ def sequential(chk, w2c2, quick):
     if st != 'ok':
         chk.inconclusive('reference failed for the sequential atomics module: %s %s' % (st, str(ref)[:300]))
         return
-    builds = [('gcc-O1', 'gcc', ['-O1'])] + ([] if quick else [('clang-O2', 'clang', ['-O2']), ('gcc-O0', 'gcc', ['-O0'])])
+    builds = [('gcc-O1', 'gcc', ['-O1']), ('gcc-O1-padded-encoding', 'gcc', ['-O1'])] + ([] if quick else [('clang-O2', 'clang', ['-O2']), ('gcc-O0', 'gcc', ['-O0'])])
+    bpad = m.encode(wasm.rot_enc(3, env.rng('c16-pad')))   # same module, redundantly padded LEB128 fields (incl. the 0xFE sub-opcodes)
+    okp, msgp = e2e.validate_v8(bpad, d, 'padded')
+    if not okp:
+        chk.inconclusive('V8 rejects the padded encoding of the atomics module: %s' % msgp)
     for tag, cc, fl in builds:
-        st2, out, r = e2e.build_and_run(w2c2, b, plan, script, os.path.join(d, tag), cc=cc, cflags=fl, cdefs=['-DWASM_THREADS_PTHREADS'], link=['-lpthread'],
+        st2, out, r = e2e.build_and_run(w2c2, bpad if 'padded' in tag else b, plan, script, os.path.join(d, tag), cc=cc, cflags=fl, cdefs=['-DWASM_THREADS_PTHREADS'], link=['-lpthread'],
                                         )
         files = {'module.wasm': b, 'script.txt': script}
         if st2 != 'ok':
